@@ -18,4 +18,4 @@ package types
 //@   ensures index.i != nil && fresh(index.i)
 //@   ensures old(bigv[max.i]) > 0 ==> 0 <= bigv[index.i] && bigv[index.i] < old(bigv[max.i])
 //@   ensures bigv[index.i] == beval(bytes(hash[:8])) % old(bigv[max.i])
-//@   ensures forall p int :: p <= old(ref(max.i)) ==> bigv[p] == old(bigv[p])
+//@   ensures forall p int {bigv[p]} :: p <= old(ref(max.i)) ==> bigv[p] == old(bigv[p])
